@@ -188,8 +188,16 @@ def loopback(ctx, res):
         await asyncio.sleep(0)
         before = fd_count()
         try:
-            data = await send_udp(Endpoint(host, port), PACKET, timeout=0.05, retries=retries)
-            result = ["ok", bytes(data)[:1].decode()]
+            if behaviour == ["cancelled"]:
+                # the caller gives up first (its own wait_for deadline cancels the call while it waits)
+                try:
+                    await asyncio.wait_for(send_udp(Endpoint(host, port), PACKET, timeout=0.5, retries=retries), 0.03)
+                    result = ["ok", "?"]
+                except asyncio.TimeoutError:
+                    result = ["error", "cancelled"]
+            else:
+                data = await send_udp(Endpoint(host, port), PACKET, timeout=0.05, retries=retries)
+                result = ["ok", bytes(data)[:1].decode()]
         except Timeout:
             result = ["error", "timeout"]
         except OSError:
@@ -212,7 +220,7 @@ def loopback(ctx, res):
     except OSError:
         hosts = ["127.0.0.1"]
         res.count("loopback:no-ipv6")
-    cases = [(["empty", "reply"], 3), (["reply"], 3), (["none", "reply"], 3), (["none"], 2), (["late", "reply"], 3), (["two"], 2), (["closed"], 3), (["none", "none", "reply"], 3), (["late"], 1)]
+    cases = [(["empty", "reply"], 3), (["reply"], 3), (["none", "reply"], 3), (["none"], 2), (["late", "reply"], 3), (["two"], 2), (["closed"], 3), (["none", "none", "reply"], 3), (["late"], 1), (["cancelled"], 2)]
     # both address families, and with the library's loggers at DEBUG (what is sent and returned must
     # not depend on the log level of the application)
     plan = [(b, r, "127.0.0.1", False) for b, r in cases * ctx.budget(1, 5)]
@@ -242,7 +250,10 @@ def loopback(ctx, res):
         case = {"loopback": behaviour, "retries": retries, "host": host, "debug_logging": debug}
         if obs["fd_delta"] != 0:
             res.violate("loopback", case, "no descriptor left", obs, f"{obs['fd_delta']} file descriptor(s) left open after the call ended with {obs['result']}", {"kind": "udp", "what": "socket-left-open", "after": obs["result"][1] if obs["result"][0] == "error" else "ok"})
-        if behaviour != ["closed"]:
+        if behaviour == ["cancelled"]:
+            if obs["result"] != ["error", "cancelled"] or obs["sends"] > 1:
+                res.violate("loopback", case, ["error", "cancelled"], obs, "a cancelled call did not end as cancelled", {"kind": "udp", "what": "wrong-behaviour", "after": "cancel"})
+        elif behaviour != ["closed"]:
             n_unans = 0
             for b in behaviour + [behaviour[-1]] * retries:
                 if b in ("reply", "two", "empty"):
